@@ -257,7 +257,7 @@ def gen_ops(rng, root, env, n, profile="mixed", bad=0.3):
                 op["fmt"] = rng.choice(FORMATS)
                 if rng.random() < 0.35:
                     op["corrupt"] = rng.choice(["truncate:%d" % rng.randrange(1, 8), "wrongroot", "badutf8", "empty",
-                                                "garbage"])
+                                                "garbage", "seqroot", "seqroot", "multidoc", "scalarroot"])
             ops.append(op)
         elif kind == "cmdline":
             argv = []
@@ -543,6 +543,43 @@ class Driver:
         return {"kind": "set", "path": path, "raised": exc, "label": label, "norm": norm, "pred": pred, "before": before,
                 "listed": True, "node": nd, "value": plain(new), "superset": True}
 
+    def _op_list_reuse(self, op):
+        """Assign to a list-of-configurations field a list that re-uses the configuration objects it holds now (or
+        those of another list with the same item type) and ends with a rejected element; or append / insert such a
+        live object, made invalid in place first, into another list."""
+        cc, cfg = self.cc, self.cfg
+        path = self.concrete(op["path"])
+        if path is None:
+            return None
+        nd = self.node(path)
+        try:
+            cur = spec.get_path(cfg, path)
+            src = spec.get_path(cfg, self.concrete(op["src"])) if op.get("src") else cur
+        except Exception:
+            return None
+        if nd is None or nd["kind"] != "field" or nd["family"] != "list" or not nd.get("item") or nd["item"]["kind"] == "field":
+            return None
+        if not isinstance(src, list) or not len(src) or not all(isinstance(it, cc.Config) for it in src):
+            return None
+        parent_path, key = spec.split_parent(path)
+        try:
+            parent = spec.get_path(cfg, parent_path) if parent_path else cfg
+        except Exception:
+            return None
+        bad = spec.realize(cc, copy.deepcopy(op["bad"]))
+        label = model.accepts_tree(nd["item"], bad, self.env)[0] if isinstance(bad, dict) else False
+        if label is not False:
+            return None
+        new = list(src) + [bad]
+        before = self.snapshot()
+        if op.get("route") == "item" and "[" not in path:
+            exc = self._run(lambda: cfg.__setitem__(path, new))
+        else:
+            exc = self._run(lambda: setattr(parent, key, new))
+        pred = Prediction(clone(before.values), dict(before.flags))
+        return {"kind": "set", "path": path, "raised": exc, "label": False, "pred": pred, "before": before,
+                "listed": True, "node": nd, "reuse": True}
+
     def _op_set_dict_dotted(self, op):
         """cfg['path.to.dict.key'] = value: a dotted path that continues into a typed dict value."""
         cc, cfg = self.cc, self.cfg
@@ -760,7 +797,22 @@ class Driver:
             return None
         corrupt = op.get("corrupt")
         parse_fails = False
-        if corrupt:
+        if corrupt in ("seqroot", "scalarroot", "multidoc"):
+            # wrong roots that begin like a good document: a sequence whose first element is the valid map, a YAML
+            # stream whose first document is the valid map, a scalar
+            try:
+                if corrupt == "multidoc":
+                    if fmt != "yaml":
+                        return None
+                    doc = doc.rstrip(b"\n") + b"\n---\njust a string\n"
+                elif fmt not in ("json", "yaml", "pickle"):
+                    return None  # XML always has a map at its root, BSON cannot encode another one
+                else:
+                    doc = cc.ConfigFormat.get(fmt).dumps(self.cfg, [tree, 7] if corrupt == "seqroot" else 7)
+            except Exception:
+                return None
+            parse_fails = True
+        elif corrupt:
             doc, parse_fails = corrupt_doc(doc, fmt, corrupt)
             if doc is None:
                 return None
